@@ -77,6 +77,8 @@ Sensitivity (quick tier, seed 1, scratch copies of tornado/iostream.py; every mu
       (a future its caller cancelled makes close() raise CancelledError partway: later futures and the
       close callback are never settled)  -> grid + main at seeds 1,2,3: C13.close_raised (local causes),
       C13.event_handler_raised (FIN / RST / EPIPE), C13.write_future_never_completes (ERROR event)
+  M11 _signal_closed: kept-prefix block of a failing read_into reordered (_read_buffer_size = requested size)
+      -> seeds 1,2,3: C13.returned_unsatisfied (post-close read_bytes(1) returns b"" after the drain)
 The proposed patch for F-C13-stale-read-state was applied to a scratch copy: both replays and the quick
 tier then pass without any KNOWN-FINDING line.
 
